@@ -1828,26 +1828,40 @@ func stringOfRunesRule(c *Ctx, r *R) {
 		return
 	}
 	runes, bytes := false, false
+	// the clause and the new helpers it calls
+	scopes := []ast.Node{clause}
 	ast.Inspect(clause, func(n ast.Node) bool {
-		call, ok := n.(*ast.CallExpr)
-		if !ok || len(call.Args) != 1 {
-			return true
-		}
-		if t, isConv := c.IsConversion(call); !isConv || !types.Identical(t.Underlying(), types.Typ[types.String]) {
-			return true
-		}
-		if st, ok := c.TypeOf(call.Args[0]).Underlying().(*types.Slice); ok {
-			if b, ok := st.Elem().Underlying().(*types.Basic); ok {
-				switch b.Kind() {
-				case types.Int32:
-					runes = true
-				case types.Uint8:
-					bytes = true
+		if call, ok := n.(*ast.CallExpr); ok {
+			if o := c.Callee(call); o != nil && c.isNewHelper(o) {
+				if h := c.DeclOf(o); h != nil && h.Body != nil {
+					scopes = append(scopes, h.Body)
 				}
 			}
 		}
 		return true
 	})
+	for _, scope := range scopes {
+		ast.Inspect(scope, func(n ast.Node) bool {
+			call, ok := n.(*ast.CallExpr)
+			if !ok || len(call.Args) != 1 {
+				return true
+			}
+			if t, isConv := c.IsConversion(call); !isConv || !types.Identical(t.Underlying(), types.Typ[types.String]) {
+				return true
+			}
+			if st, ok := c.TypeOf(call.Args[0]).Underlying().(*types.Slice); ok {
+				if b, ok := st.Elem().Underlying().(*types.Basic); ok {
+					switch b.Kind() {
+					case types.Int32:
+						runes = true
+					case types.Uint8:
+						bytes = true
+					}
+				}
+			}
+			return true
+		})
+	}
 	r.check(bytes, "string of bytes", c.Pos(clause), "string(<[]byte>)", "Value.convert no longer builds a string from the bytes of a byte slice")
 	r.check(runes, "string of runes", c.Pos(clause), "string(<[]rune>) encodes code points as UTF-8",
 		"Value.convert turns every slice into a string byte by byte: string([]rune{'h', 'é', '世'}) truncates each code point to its low byte instead of encoding it as UTF-8")
